@@ -401,7 +401,7 @@ def main(argv):
     ap.add_argument("prop", nargs="?")
     ap.add_argument("--tier", default=os.environ.get("VERIF_TIER", "quick"))
     ap.add_argument("--only", default=None)
-    ap.add_argument("--jobs", type=int, default=4)
+    ap.add_argument("--jobs", type=int, default=6)
     ap.add_argument("--replay", default=None)
     ap.add_argument("--list", action="store_true")
     ap.add_argument("--prepare", action="store_true", help="build the target-dir pools of all crates and exit")
@@ -427,6 +427,11 @@ def main(argv):
     prop = a.prop
     tiers = ("quick",) if a.tier == "quick" else ("quick", "thorough")
     hs = [h for h in allh if prop in h.props and h.tier in tiers]
+    if prop == "C17" and a.tier == "quick":
+        # C17 (panic-freedom) is asserted by every harness that carries the tag; the quick tier runs the families whose
+        # FIRST property is C02 or C06 plus the protocol-level "unimplemented request" harnesses, the thorough tier all
+        # of them (the other families run under their own property's quick check anyway)
+        hs = [h for h in hs if h.props[0] in ("C02", "C06", "C13", "C17")]
     if a.only:
         hs = [h for h in hs if a.only in h.full]
     if not hs:
